@@ -484,6 +484,104 @@ def _parse_enum_operators(src, path, E, tn, consumed):
     E["parses"], E["parse_throws"] = parses, throws
 
 
+# ---- which class does each case of a wrapper switch name?
+def scan_type(txt, i):
+    """a type expression at txt[i:]: (typename|const)* (::)? id (<balanced>)? (:: id (<balanced>)?)*
+    returns (class name, end) or None.  The class name is the last component of the qualified name with the template
+    arguments dropped (`amgcl::relaxation::ilu0<Backend>` -> `ilu0`); for the result of a metafunction
+    (`as_scalar<amgcl::coarsening::aggregation>::type`) it is `as_scalar<aggregation>`."""
+    n = len(txt)
+    def ws(j):
+        while j < n and txt[j].isspace(): j += 1
+        return j
+    i = ws(i)
+    while True:
+        m = re.compile(r"(typename|const|struct|class)\b").match(txt, i)
+        if not m: break
+        i = ws(m.end())
+    parts = []
+    if txt.startswith("::", i): i = ws(i + 2)
+    while True:
+        m = re.compile(r"[A-Za-z_]\w*").match(txt, i)
+        if not m: return None
+        name, targs = m.group(), None; i = m.end()
+        j = ws(i)
+        if j < n and txt[j] == "<":
+            depth, k = 0, j
+            while k < n:
+                if txt[k] == "<": depth += 1
+                elif txt[k] == ">":
+                    depth -= 1
+                    if depth == 0: break
+                elif txt[k] in ";{}": return None
+                k += 1
+            if k >= n: return None
+            targs = txt[j + 1:k]; i = k + 1; j = ws(i)
+        parts.append((name, targs))
+        if txt.startswith("::", j) and re.compile(r"\s*(template\s+)?[A-Za-z_]").match(txt, j + 2):
+            i = ws(j + 2)
+            m2 = re.compile(r"template\b").match(txt, i)
+            if m2: i = ws(m2.end())
+            continue
+        break
+    name = parts[-1][0]
+    if name == "type" and len(parts) >= 2 and parts[-2][1] is not None:
+        inner = scan_type(parts[-2][1], 0)
+        name = "%s<%s>" % (parts[-2][0], inner[0] if inner else "?")
+    return name, i
+
+
+def case_classes(path, plain, macro_bodies):
+    """[(case label, class)] in label order for one wrapper switch: the class (last component of its qualified name,
+    template arguments dropped) that the code of the case names after `new`, inside `static_cast<…*>`, as an explicit
+    template argument of a called function template (`call_apply_pre<amgcl::relaxation::T>(…)`), or through a local
+    typedef; "" when the case names none; several different ones are joined with `|` (and will not agree with anything).
+    A label without code of its own (fall-through) gets the class of the code it falls into."""
+    def expand(mm):
+        name, arg = mm.group(1), mm.group(2)
+        if name not in macro_bodies: return mm.group(0)
+        prm, mb = macro_bodies[name]
+        return re.sub(r"\b%s\b" % re.escape(prm), arg, mb) + ";"
+    txt = re.sub(r"\b(\w+)\s*\(\s*(\w+)\s*\)\s*;", expand, plain)
+    labels = [(m.start(), m.end(), m.group(1)) for m in re.finditer(r"\bcase\s+([\w:]+)\s*:(?!:)|\bdefault\s*:(?!:)", txt)]
+    out = []
+    for k, (a, b, lab) in enumerate(labels):
+        seg = txt[b:labels[k + 1][0]] if k + 1 < len(labels) else txt[b:]
+        names, aliases = [], {}
+        for tm in re.finditer(r"\btypedef\b", seg):
+            r = scan_type(seg, tm.end())
+            if r is None: fail(path, seg[tm.start():tm.start() + 120], "cannot parse the type of a typedef inside a switch case")
+            am = re.compile(r"\s*(\w+)\s*;").match(seg, r[1])
+            if not am: fail(path, seg[tm.start():tm.start() + 120], "cannot parse a typedef inside a switch case")
+            aliases[am.group(1)] = r[0]
+        def note(head):
+            names.append(aliases.get(head, head))
+        for nm in re.finditer(r"\bnew\b", seg):
+            r = scan_type(seg, nm.end())
+            if r is None: fail(path, seg[nm.start():nm.start() + 120], "cannot parse the type after `new` inside a switch case")
+            note(r[0])
+        for cm in re.finditer(r"\b(?:static|reinterpret|dynamic)_cast\s*<", seg):
+            r = scan_type(seg, cm.end())
+            if r is None: fail(path, seg[cm.start():cm.start() + 120], "cannot parse the target of a cast inside a switch case")
+            if r[0] not in ("void", "char"): note(r[0])
+        for fm in re.finditer(r"\b([A-Za-z_]\w*)\s*<", seg):
+            if fm.group(1) in ("static_cast", "reinterpret_cast", "dynamic_cast", "const_cast"): continue
+            r0 = scan_type(seg, fm.start())
+            if r0 is None: continue
+            # a function template called with explicit template arguments:  name<ARGS>(…)   (not `new T<…>(…)`)
+            if not re.compile(r"\s*\(").match(seg, r0[1]): continue
+            if re.search(r"\b(new|typedef|typename)\s+$", seg[:fm.start()]) or re.search(r"::\s*$", seg[:fm.start()]): continue
+            r = scan_type(seg, fm.end())
+            if r is not None and re.compile(r"\s*[,>]").match(seg, r[1]): note(r[0])
+        uniq = []
+        for x in names:
+            if x not in uniq: uniq.append(x)
+        out.append([lab, "|".join(uniq), bool(seg.strip(" \t\n;{}"))])
+    # fall-through labels take the class of the next label that has code
+    for k in range(len(out) - 2, -1, -1):
+        if not out[k][2]: out[k][1] = out[k + 1][1]
+    return [(lab.split("::")[-1], cls) for lab, cls, _ in out if lab is not None]
+
 # ------------------------------------------------------------------------------------------------ enums
 def parse_enum_file(src, path, ns_of_pos):
     """returns (enum dict or None, list of switches)"""
@@ -523,7 +621,7 @@ def parse_enum_file(src, path, ns_of_pos):
         if not bm: fail(path, src[m.start():pc + 20], "switch without a braced body")
         o = pc + 1 + bm.end() - 1; c = match_brace(src, o); body = src[o + 1:c]
         if re.search(r"\bswitch\s*\(", body): fail(path, body, "nested switch in a run-time wrapper")
-        cases, quals, macros = [], set(), {}
+        cases, quals, macros, macro_bodies = [], set(), {}, {}
         # local case-generating macros:  #define M(arg) \  case [qual::]arg: \ ...
         def_pat = re.compile(r"^[ \t]*#[ \t]*define[ \t]+(\w+)\(\s*(\w+)\s*\)((?:.*\\\n)*.*)$", re.M)
         plain = body
@@ -533,6 +631,7 @@ def parse_enum_file(src, path, ns_of_pos):
             if len(cm) != 1 or cm[0].split("::")[-1] != dm.group(2):
                 fail(path, dm.group(0), "switch-local macro that does not generate exactly one `case <arg>:`")
             macros[dm.group(1)] = "::".join(cm[0].split("::")[:-1])
+            macro_bodies[dm.group(1)] = (dm.group(2), mb)
             if re.search(r"\bdefault\s*:", mb): fail(path, dm.group(0), "default label inside a macro")
         plain = def_pat.sub(lambda mm: "\n" * mm.group(0).count("\n"), plain)
         plain = re.sub(r"^[ \t]*#[ \t]*undef[ \t]+\w+[ \t]*$", "", plain, flags=re.M)
@@ -546,7 +645,10 @@ def parse_enum_file(src, path, ns_of_pos):
         if dm is None: must = True
         else: must = bool(re.search(r"\bthrow\b", dm.group(1)))
         if not cases: fail(path, body, "switch without any recognisable case")
-        switches.append({"site": "%s:%d" % (rel, line_of(src, m.start())), "cases": cases, "must": must,
+        classes = case_classes(path, plain, macro_bodies)
+        if [c for c, _ in classes] != cases:
+            fail(path, body, "case labels seen by the class extraction %r differ from the case list %r" % ([c for c, _ in classes], cases))
+        switches.append({"site": "%s:%d" % (rel, line_of(src, m.start())), "cases": cases, "must": must, "classes": classes,
                          "quals": sorted(q for q in quals if q), "ns": ns_of_pos(m.start())})
     return E, switches
 
@@ -780,6 +882,14 @@ def enum_offenders(E):
         if sw["must"]:
             for e in E["values"]:
                 if e not in sw["cases"]: out.append((e, "no case in the wrapper switch at %s" % sw["site"]))
+    for e in E["values"]:
+        seen = []
+        for sw in E["switches"]:
+            c = dict(reversed(sw.get("classes", []))).get(e, "")
+            if c: seen.append((c, sw["site"]))
+        for c, site in seen[1:]:
+            if c != seen[0][0]:
+                out.append((e, "the wrapper switch at %s dispatches to class `%s`, the one at %s to `%s`" % (site, c, seen[0][1], seen[0][0])))
     return out
 
 
@@ -826,11 +936,14 @@ def emit(tables, enums):
     def sw(s): return "⟨%s, %s, %s⟩" % (lean_str(s["site"]), lean_list([lean_str(c) for c in s["cases"]]), "true" if s["must"] else "false")
     def pair(p): return "(%s, %s)" % (lean_str(p[0]), lean_str(p[1]))
 
+    def disp(s): return "⟨%s, %s⟩" % (lean_str(s["site"]), lean_list([pair(p) for p in s["classes"]]))
+
     def etable(E):
-        return ("  { name := %s, file := %s,\n    values := %s,\n    prints := %s,\n    parses := %s,\n    parseThrows := %s,\n    switches := %s }") % (
+        return ("  { name := %s, file := %s,\n    values := %s,\n    prints := %s,\n    parses := %s,\n    parseThrows := %s,\n    switches := %s,\n    dispatch := %s }") % (
             lean_str(E["name"] + E["tag"]), lean_str(E["file"]), lean_list([lean_str(v) for v in E["values"]]),
             lean_list([pair(p) for p in E["prints"]]), lean_list([pair(p) for p in E["parses"]]),
-            "true" if E["parse_throws"] else "false", lean_list([sw(s) for s in E["switches"]]))
+            "true" if E["parse_throws"] else "false", lean_list([sw(s) for s in E["switches"]]),
+            lean_list([disp(s) for s in E["switches"]]))
     a("/-- every run-time enum: operator<< / operator>> tables and wrapper switches (`@all` = with every AMGCL_HAVE_* defined) -/")
     a("def enumTables : List EnumTable := [")
     a(",\n".join(etable(E) for E in enums))
@@ -849,6 +962,10 @@ def emit(tables, enums):
          "/-- every run-time enum: `parse (print e) = some e`, nothing outside the printed names parses, every enumerator",
          "has a case in every wrapper switch whose `default:` throws -/",
          "theorem enum_tables_roundtrip : ∀ E ∈ enumTables, E.Consistent := by decide",
+         "",
+         "/-- every `switch` of every run-time wrapper (constructor, destructor, apply_pre / apply_post / apply, operator(),",
+         "bytes, …) names the SAME class in its case for an enumerator (`EnumTable.dispatch`, Amgcl/Properties/C14b.lean) -/",
+         "theorem enum_switches_same_class : ∀ E ∈ enumTables, E.SameClass := by decide",
          "",
          "end Amgcl.Generated", ""]
     return data, "\n".join(O)
@@ -870,7 +987,7 @@ def main():
         return 2
     # the optional-feature configuration only matters where it changes a table
     key = lambda E: json.dumps({k: E[k] for k in ("values", "prints", "parses", "parse_throws")}, sort_keys=True) + \
-        json.dumps([(s["cases"], s["must"]) for s in E["switches"]])
+        json.dumps([(s["cases"], s["must"], s.get("classes")) for s in E["switches"]])
     base_keys = {E["name"]: key(E) for E in enums}
     enums += [E for E in enums_all if base_keys.get(E["name"]) != key(E)]
     tkey = lambda R: json.dumps({k: R[k] for k in ("fields", "imports", "manual", "checks", "exports", "export_params", "derived_own")}, sort_keys=True)
